@@ -319,6 +319,9 @@ type hRecord struct {
 	Server   string `json:"server"`
 	WriteErr string `json:"write_err,omitempty"`
 	Size     int    `json:"handler_size"`
+	// UpstreamCalls is, in the ecs-cache phase, how many times the scripted
+	// upstream was called for this request (0: served from cache).
+	UpstreamCalls int `json:"upstream_calls"`
 }
 
 // h8 is the handler given to the servers.  It reports every invocation to the
@@ -354,6 +357,19 @@ func (h *h8) forget(cell int) {
 	h.mu.Unlock()
 }
 
+// report hands rec to the client that registered the cell, if any.
+func (h *h8) report(cell int, rec hRecord) {
+	h.mu.Lock()
+	ch := h.waiters[cell]
+	h.mu.Unlock()
+	if ch != nil {
+		select {
+		case ch <- rec:
+		default:
+		}
+	}
+}
+
 // ServeDNS implements dnsserver.Handler.
 func (h *h8) ServeDNS(ctx context.Context, rw dnsserver.ResponseWriter, req *dns.Msg) (err error) {
 	h.invocations.Add(1)
@@ -386,15 +402,7 @@ func (h *h8) ServeDNS(ctx context.Context, rw dnsserver.ResponseWriter, req *dns
 		rec.WriteErr = wErr.Error()
 	}
 
-	h.mu.Lock()
-	ch := h.waiters[sh.Cell]
-	h.mu.Unlock()
-	if ch != nil {
-		select {
-		case ch <- rec:
-		default:
-		}
-	}
+	h.report(sh.Cell, rec)
 
 	if sh.Propagate {
 		return wErr
